@@ -108,8 +108,10 @@ def stepC02 (fields : List String) : Option String :=
       pure (encodeBool (ls.all (·.ok Generated.endRe)) ++ "|" ++ encodeText (Spec.infoTextOf ls) ++ "|" ++
         encodeList (Spec.plantedInfo ls).lic ++ "|" ++ encodeList (Spec.plantedInfo ls).cpr ++ "|" ++
         encodeList (Spec.plantedInfo ls).con ++ "|" ++
-        -- the hypothesis `hfit` of C02_file_exact
-        encodeBool (decide ((encodeUtf8 (Spec.infoTextOf ls)).length ≤ 4096) || containsSnippet (encodeUtf8 (Spec.infoTextOf ls))))
+        -- the hypothesis `hfit` of C02_file_exact / C02_file_exact_line_endings for the LF, the CRLF and the CR form
+        String.join ([id, Spec.toCRLF, Spec.toCR].map fun f =>
+          encodeBool (decide ((encodeUtf8 (f (Spec.infoTextOf ls))).length ≤ 4096) ||
+            containsSnippet (encodeUtf8 (f (Spec.infoTextOf ls))))))
   | ["c02blocks", a0, hidden, visible, open_, kinds, pres, blanks, vs, trails, keys, yforms] => do
       -- do the hypotheses of C02_extract_exact_with_blocks / C02_file_exact_with_blocks hold?  The text is
       -- a0 S hidden[0] E visible[0] S hidden[1] E visible[1] … (S open_)?; the lines are those of the visible parts glued
@@ -131,7 +133,8 @@ def stepC02 (fields : List String) : Option String :=
           "|" ++ encodeText t ++ "|" ++
           encodeList (Spec.plantedInfo ls).lic ++ "|" ++ encodeList (Spec.plantedInfo ls).cpr ++ "|" ++
           encodeList (Spec.plantedInfo ls).con ++ "|" ++
-          encodeBool (!t.contains '\r' && (decide ((encodeUtf8 t).length ≤ 4096) || containsSnippet (encodeUtf8 t))))
+          String.join ([id, Spec.toCRLF, Spec.toCR].map fun f =>
+            encodeBool (!t.contains '\r' && (decide ((encodeUtf8 (f t)).length ≤ 4096) || containsSnippet (encodeUtf8 (f t))))))
   | ["decode", bs] => do pure (encodeText (decodedText (← decodeBytes bs)))
   | ["windowlen", bs] => do pure (toString (window (← decodeBytes bs)).length)
   | ["infofile", bs, bad] => do
